@@ -166,6 +166,9 @@ def _els(d):
     return tuple(sorted(set(d) - NON_SOLUTE))
 
 
+SI_STOICH = {}   # (database, 'SI("phase")') -> 2 x sum of |stoichiometric coefficients| of the phase reaction (see close)
+
+
 def observables(m):
     """list of (expr, kind, poised_only, elements); kinds: pH, log, rel, ext, abs, cb, alk, psi, sigma;
     elements = base elements whose mass balance the value depends on (their solver tolerance enters the comparison)"""
@@ -199,6 +202,7 @@ def observables(m):
         names = [n for _, n in p.reaction]
         if nph < 40 and all(n in poised for n in names):
             obs.append(('SI("%s")' % p.name, "log", not all(n in always for n in names), _els(p.elements)))
+            SI_STOICH[(m["db"], 'SI("%s")' % p.name)] = 2.0 * sum(abs(c) for c, n in p.reaction if n != "H2O")
             nph += 1
     for stg in stages(m):
         for p in (stg.get("eq") or {}).get("phases", []):
@@ -291,7 +295,10 @@ def close(a, b, kind, ext, ctxv):
     if kind == "pH":
         tol = ctxv["tol_pH"]
     elif kind == "log":
-        tol = REL + 12.0 * nu + eps / 2.302585   # |H+ stoichiometry| of a reaction in the databases is at most 10-12
+        # sensitivity of a log activity / saturation index to the accepted pH difference nu: 12 covers species and the
+        # phases with up to 12 H+ in their reaction; a phase with a larger reaction (Tremolite: 14 H+, 2 Ca, 5 Mg, 8 H4SiO4 -
+        # false alarm at 1.06 x tolerance, quick seed 8) carries 2 x the sum of its stoichiometric coefficients
+        tol = REL + max(12.0, ctxv.get("h_stoich", 0.0)) * nu + eps / 2.302585
         tol += ctxv.get("surf_rel", 0.0) / 2.302585
         # log activity of a species below the molality floor: the same absolute resolution as for its molality
         tol *= ctxv.get("log_floor", 1.0)
@@ -656,6 +663,7 @@ def check_case(case, ctx):
             ctxv["eps_el"] = 3.0 * sum(eps_of.get(e, 0.0) for e in oels)
             ctxv["surf_rel"] = (zmax * ctxv["surf_u"] + ctxv["surf_site"]) if expr in surf_z else 0.0
             ctxv["log_floor"] = 1.0
+            ctxv["h_stoich"] = SI_STOICH.get((m["db"], expr), 0.0) if expr.startswith('SI("') else 0.0
             if expr.startswith('LA("') and i > 0 and obs[i - 1][0] == 'MOL("' + expr[4:]:
                 mm = min(abs(va[i - 1]), abs(vb[i - 1])) if isinstance(va[i - 1], float) and isinstance(vb[i - 1], float) else 0.0
                 if mm < 1e-12:
